@@ -181,3 +181,18 @@ def run(F, R, tier):
     for nm in ("get_key", "set_key"):
         _ct.reliable_round_trip(F, R, "C10.R2", "azure_proxy_agent::shared_state::key_keeper_wrapper::KeyKeeperSharedState::" + nm,
                                 "KeyKeeperSharedState::" + nm)
+
+    # the only authorization header on a relayed request is the agent's own: it is written with HeaderMap::insert (replaces every value
+    # the client sent under that name), so no stale "id of one key, MAC of another" header rides along
+    from rules.c05 import header_mutations, header_name_const
+    from lib import inline as _inl
+    hrs_ = F.body_of("azure_proxy_agent::proxy::proxy_server::ProxyServer::handle_request_with_signature")
+    if hrs_:
+        Bh = mir.Body(_inl.with_request_helpers(F, hrs_), F)
+        auth = [(bi, m) for bi, m, mo, t_ in header_mutations(Bh)
+                if len(t_["args"]) > 1 and header_name_const(Bh, t_["args"][1]) == {"azure_proxy_agent::common::constants::AUTHORIZATION_HEADER"}]
+        R.check(bool(auth) and all(m == "insert" for _, m in auth), "C10.R1", "C10.R1:%s:authorization-replaces-client-values" % hrs_["id"],
+                "%s:%s" % (hrs_["file"], hrs_["line"]),
+                "the authorization header is written with HeaderMap::insert (%d site(s)): client-supplied values under that name are replaced" % len(auth),
+                "the authorization header is written with %s: a client-supplied authorization header stays on the relayed request next to the "
+                "agent's" % sorted({m for _, m in auth}))
